@@ -1,6 +1,8 @@
 package http2
 
 import (
+	"bufio"
+
 	"github.com/dgrr/http2/http2utils"
 )
 
@@ -169,4 +171,64 @@ func (h *Headers) Serialize(frh *FrameHeader) {
 	}
 
 	frh.payload = append(frh.payload[:0], h.rawHeaders...)
+}
+
+// writeHeaderFrames writes fr, whose body is a HEADERS frame, followed by as many
+// CONTINUATION frames as it takes for none of them to exceed max, the peer's
+// SETTINGS_MAX_FRAME_SIZE (RFC 7540 4.2, 6.10). The caller must be the only
+// writer to bw until it returns: nothing may come between the frames of a
+// header block.
+func writeHeaderFrames(bw *bufio.Writer, fr *FrameHeader, max int) error {
+	h, ok := fr.Body().(*Headers)
+	if max < defaultMaxLen {
+		max = defaultMaxLen
+	}
+
+	room := max
+	if ok && h.priority {
+		room -= 5
+	}
+
+	if !ok || h.hasPadding || len(h.rawHeaders) <= room {
+		_, err := fr.WriteTo(bw)
+
+		return err
+	}
+
+	block := h.rawHeaders
+	endHeaders := h.endHeaders
+
+	h.rawHeaders = block[:room:room]
+	h.endHeaders = false
+
+	_, err := fr.WriteTo(bw)
+
+	h.rawHeaders = block
+	h.endHeaders = endHeaders
+
+	rest := block[room:]
+
+	for err == nil && len(rest) > 0 {
+		n := len(rest)
+		if n > max {
+			n = max
+		}
+
+		cfr := AcquireFrameHeader()
+		cfr.SetStream(fr.Stream())
+
+		c := AcquireFrame(FrameContinuation).(*Continuation)
+		c.SetHeader(rest[:n])
+		c.SetEndHeaders(endHeaders && n == len(rest))
+
+		cfr.SetBody(c)
+
+		_, err = cfr.WriteTo(bw)
+
+		ReleaseFrameHeader(cfr)
+
+		rest = rest[n:]
+	}
+
+	return err
 }
